@@ -29,10 +29,11 @@ extern unsigned long _dispatch_verif_compute_missed(uint64_t *target, uint64_t *
 
 // ---- clock interposition: the library calls clock_gettime through the PLT, so this definition wins
 static int fake_clocks = 0;
+static int fake_step_all;   // 1: a reading of any clock moves all three on (time passes between readings of different clocks)
 static uint64_t fake_up, fake_mono, fake_wall, fake_step;   // fake_step: every reading of a clock moves it on by this much (time passes between two readings)
 int clock_gettime(clockid_t id, struct timespec *ts){
   if (fake_clocks && (id == CLOCK_REALTIME || id == CLOCK_MONOTONIC || id == CLOCK_BOOTTIME)) {
-    uint64_t *fc = id == CLOCK_REALTIME ? &fake_wall : id == CLOCK_MONOTONIC ? &fake_up : &fake_mono; uint64_t v = *fc; *fc += fake_step;
+    uint64_t *fc = id == CLOCK_REALTIME ? &fake_wall : id == CLOCK_MONOTONIC ? &fake_up : &fake_mono; uint64_t v = *fc; if(fake_step_all){ fake_wall+=fake_step; fake_up+=fake_step; fake_mono+=fake_step; } else *fc += fake_step;
     ts->tv_sec = (time_t)(v / 1000000000ull); ts->tv_nsec = (long)(v % 1000000000ull); return 0; }
   return (int)syscall(SYS_clock_gettime, id, ts);
 }
@@ -120,6 +121,9 @@ int main(void){
     else if(!strcmp(tok,"TOS")){ uint64_t w=strtoull(strtok(NULL," \n"),NULL,10);     /* as TO, with clocks that advance by <step> at every reading */
       fake_up=strtoull(strtok(NULL," \n"),NULL,10); fake_mono=strtoull(strtok(NULL," \n"),NULL,10); fake_wall=strtoull(strtok(NULL," \n"),NULL,10); fake_step=strtoull(strtok(NULL," \n"),NULL,10);
       fake_clocks=1; uint64_t r=_dispatch_verif_timeout(w); fake_clocks=0; fake_step=0; printf("%" PRIu64 "\n",r); }
+    else if(!strcmp(tok,"TES")){ uint64_t w=strtoull(strtok(NULL," \n"),NULL,10);     /* as TE, with time passing (all clocks move on by <step>) at every reading of a clock */
+      fake_up=strtoull(strtok(NULL," \n"),NULL,10); fake_mono=strtoull(strtok(NULL," \n"),NULL,10); fake_wall=strtoull(strtok(NULL," \n"),NULL,10); fake_step=strtoull(strtok(NULL," \n"),NULL,10);
+      fake_clocks=1; fake_step_all=1; uint64_t r=_dispatch_verif_time_since_epoch(w); fake_clocks=0; fake_step=0; fake_step_all=0; printf("%" PRIu64 "\n",r); }
     else if(!strcmp(tok,"TE")){ uint64_t w=strtoull(strtok(NULL," \n"),NULL,10);
       fake_up=strtoull(strtok(NULL," \n"),NULL,10); fake_mono=strtoull(strtok(NULL," \n"),NULL,10); fake_wall=strtoull(strtok(NULL," \n"),NULL,10);
       fake_clocks=1; uint64_t r=_dispatch_verif_time_since_epoch(w); fake_clocks=0; printf("%" PRIu64 "\n",r); }
